@@ -356,6 +356,35 @@ def gen_batching() -> str:
     return out
 
 
+def numeric_value(node, tree):
+    """A numeric literal, or a module-level name bound exactly once (nowhere else stored to, in the whole file) to a numeric
+    literal -- the shape a maintainer gives a constant when hoisting it.  None when the expression is neither."""
+    if isinstance(node, ast.UnaryOp) and isinstance(node.op, ast.USub):
+        v = numeric_value(node.operand, tree)
+        return None if v is None else -v
+    if isinstance(node, ast.Constant) and not isinstance(node.value, bool) and isinstance(node.value, (int, float)):
+        return node.value
+    if isinstance(node, ast.Name):
+        stores = [n for n in ast.walk(tree) if isinstance(n, ast.Name) and n.id == node.id and isinstance(n.ctx, (ast.Store, ast.Del))]
+        scoped = [n for n in ast.walk(tree) if isinstance(n, (ast.Global, ast.Nonlocal)) and node.id in n.names]
+        params = [a for f in ast.walk(tree) if isinstance(f, (ast.FunctionDef, ast.AsyncFunctionDef, ast.Lambda))
+                  for a in (f.args.args + f.args.kwonlyargs + f.args.posonlyargs + [x for x in (f.args.vararg, f.args.kwarg) if x])
+                  if a.arg == node.id]
+        if len(stores) != 1 or scoped or params:
+            return None
+        for st in tree.body:
+            tgt = val = None
+            if isinstance(st, ast.Assign) and len(st.targets) == 1:
+                tgt, val = st.targets[0], st.value
+            elif isinstance(st, ast.AnnAssign) and st.value is not None:
+                tgt, val = st.target, st.value
+            if tgt is stores[0]:
+                if isinstance(val, ast.Name):
+                    return None
+                return numeric_value(val, tree)
+    return None
+
+
 def gen_versions() -> str:
     path = "protocol/types/versioning.py"
     tree = read(path)
@@ -376,22 +405,50 @@ def gen_consts() -> str:
         raise TranslateError("_await_response: signature differs from template", fn)
     defaults = dict(zip(names[len(names) - len(fn.args.defaults):], fn.args.defaults))
     d = defaults.get("sub_timeout")
-    if not isinstance(d, ast.Constant) or isinstance(d.value, bool) or not isinstance(d.value, (int, float)):
-        raise TranslateError("_await_response: sub_timeout default is not a numeric literal", fn)
-    ticks = d.value * 100
+    dv = numeric_value(d, tree) if d is not None else None
+    if dv is None:
+        raise TranslateError("_await_response: sub_timeout default is not a numeric literal (or a module constant bound once to one)", fn)
+    ticks = dv * 100
     if ticks != int(ticks) or ticks <= 0:
         raise TranslateError("_await_response: sub_timeout is not a positive multiple of 10 ms", fn)
-    # sub_timeout must not be reassigned and must be what the inner fail_after uses
-    inner = 0
-    for node in ast.walk(fn):
-        if isinstance(node, ast.Name) and node.id == "sub_timeout" and isinstance(node.ctx, ast.Store):
-            raise TranslateError("_await_response: sub_timeout reassigned", node)
-        if isinstance(node, ast.Call) and isinstance(node.func, ast.Attribute) and node.func.attr in ("fail_after", "move_on_after"):
-            if len(node.args) == 1 and isinstance(node.args[0], ast.Name) and node.args[0].id == "sub_timeout" \
-                    and node.func.attr == "fail_after":
-                inner += 1
-            else:
-                raise TranslateError("_await_response: unexpected timeout scope", node)
+    # sub_timeout must not be reassigned and must be what the (one) inner fail_after uses -- directly, or inside a
+    # module-level helper it is handed to (the shape an extract-function refactoring leaves)
+    helpers = {n.name: n for n in tree.body if isinstance(n, (ast.FunctionDef, ast.AsyncFunctionDef))}
+
+    def scopes_using(f, var, depth=0):
+        """number of `fail_after(var)` scopes in f and in the helpers var is passed on to; any other use of a timeout
+        construct raises"""
+        count = 0
+        for node in ast.walk(f):
+            if isinstance(node, ast.Name) and node.id == var and isinstance(node.ctx, ast.Store):
+                raise TranslateError(f"{f.name}: {var} reassigned", node)
+            if not isinstance(node, ast.Call):
+                continue
+            if isinstance(node.func, ast.Attribute) and node.func.attr in ("fail_after", "move_on_after", "wait_for", "timeout"):
+                if len(node.args) == 1 and not node.keywords and isinstance(node.args[0], ast.Name) and node.args[0].id == var \
+                        and node.func.attr == "fail_after":
+                    count += 1
+                else:
+                    raise TranslateError(f"{f.name}: unexpected timeout scope", node)
+            elif isinstance(node.func, ast.Name) and node.func.id in helpers and node.func.id != f.name:
+                h = helpers[node.func.id]
+                hnames = [a.arg for a in h.args.args]
+                passed = [hnames[i] for i, a in enumerate(node.args) if isinstance(a, ast.Name) and a.id == var and i < len(hnames)]
+                passed += [k.arg for k in node.keywords if isinstance(k.value, ast.Name) and k.value.id == var and k.arg]
+                if any(isinstance(a, ast.Starred) for a in node.args) or any(k.arg is None for k in node.keywords):
+                    raise TranslateError(f"{f.name}: star-arguments in a call of {h.name}", node)
+                for pn in passed:
+                    if depth >= 3:
+                        raise TranslateError(f"{f.name}: helper chain too deep", node)
+                    count += scopes_using(h, pn, depth + 1)
+                if not passed:
+                    # a helper that does not receive the interval must not open timeout scopes of its own
+                    for sub in ast.walk(h):
+                        if isinstance(sub, ast.Call) and isinstance(sub.func, ast.Attribute) \
+                                and sub.func.attr in ("fail_after", "move_on_after", "wait_for", "timeout"):
+                            raise TranslateError(f"{h.name}: timeout scope in a helper of _await_response", sub)
+        return count
+    inner = scopes_using(fn, "sub_timeout")
     if inner != 1:
         raise TranslateError("_await_response: expected exactly one fail_after(sub_timeout)", fn)
     # the public entry point must not override it
